@@ -42,12 +42,37 @@ RULE = ('one case = one history of 20-200 operations on one interpreter whose ca
         'same registry between two traversals (type-directed on the lookups _extend_children makes); observed per '
         'expanded instance: how the result shows its children were reached (keys+get / iterate / none) and the tagged '
         'handlers that ran, replayed as the strategy starStrategy through the memo model and against the uncached '
-        'TReg.compute (refStar). '
+        'TReg.compute (refStar); '
+        '(d) direct handler lookups (a custom spec whose glomit asks scope[TargetRegistry].get_handler(op, target) and '
+        'returns the tag of what it got: lookup1 of the model) for every op (get, iterate, keys, assign, delete) on '
+        'instances of the generated classes and of builtin set / frozenset / range; the classes of a case include 0-2 '
+        'iterable ABCs of which generated classes are virtual subclasses (ABC.register or __subclasshook__) and the '
+        'collections.abc class of the builtin; registrations may be exact=True; type-directed triples lookup / '
+        'register(the type itself | a base | a subclass | the ABC it is a virtual subclass of, exact or not, with a '
+        'handler for the looked-up op) / the same lookup; '
+        '(e) T arithmetic on containers the target owns: a target holding one list, set, frozenset, dict, bytearray, '
+        'tuple (some shared under two keys / twice in a list of rows), ints, str, bool, None; specs = T[field] followed by '
+        '1-3 operations out of + - * // / % ** & | ^ ~ - whose right operands are literals (scalar, list / tuple / set / '
+        'frozenset / dict literal rebuilt by arg_val, the spec\'s own bytearray passed through), T expressions reading '
+        'a container of the target (the same one included), nested T arithmetic, literal lists holding a T; 80 % of '
+        'the operations type-correct, the rest any operator x any operand kind; bare, as values (and T keys) of a dict '
+        'spec, mapped over the rows by a list spec, in a tuple chain, under Coalesce with / without default; the '
+        'thorough tier also enumerates every operator x 8 left operand kinds x 9 right operand kinds, each '
+        'evaluated twice; observed per call: the heap graph (every container by address = identity) of target and '
+        'spec-owned objects before and after, the result as a graph (a mutable object that existed before by its '
+        'address, a new one by structure), replayed through the Lean heap model (evalAuto) and checked by checkArith. '
         'non-trivial = history has a repeat of a call after a cache-changing operation; distinct = distinct op sequences')
-TRUSTED = ['the uncached handler lookup is modelled as "nearest type of the MRO with a handler" (real subclasses only; the '
-           'type-tree walk, virtual subclasses and exact= are C13\'s subject)']
-ASSUMPTIONS = ['"inputs untouched" is observed (snapshots), not proved at heap level: the interpreter model has immutable '
-               'values (except for Vars/ScopeVars: c06_vars_frame on a heap of dict objects)',
+TRUSTED = ['the uncached handler lookup is modelled as "the type itself, else the nearest type of the MRO that is in the type '
+           'tree, else the (one) registered iterable ABC the type is a virtual subclass of" (the type-tree walk and the '
+           'order among several candidates outside the MRO are C13\'s subject; the tie between _ObjStyleKeys and an ABC '
+           'for keys / assign / delete on instances with a __dict__ is not asked of the model)',
+           'CPython: the binary operators of list, tuple, bytearray, set, frozenset, dict build a new object and leave '
+           'their operands alone (modelled by aBin, compared with CPython on every generated case)']
+ASSUMPTIONS = ['"inputs untouched" is a heap-level theorem for T expressions (item steps + every arithmetic operator over '
+               'scalars, lists, tuples, bytearrays, sets, frozensets, dicts), arg_val, dict / list / tuple specs, Coalesce '
+               '(c06_tarith_frame, c06_spec_frame, c06_calls_frame) and for Vars/ScopeVars (c06_vars_frame); for the other '
+               'constructs (callables, Call / Invoke, Fold / Group, Match, Iter, S-rooted expressions) it is observed by '
+               'deep snapshots',
                'specs in the pool contain no Assign/Delete/scope assignment into target-owned objects; scope assignment '
                'into the per-call scope (A.n, A.v.n, A.globals.n) is in the domain']
 MANIFEST = dict(
@@ -63,12 +88,27 @@ MANIFEST = dict(
           "c06_star_pure / c06_star_any_history / c06_star_register_star show that after any history the children of "
           "every item are reached by the handlers the registrations in force give; the facts obligation also requires "
           "that no function of glom keeps a handler obtained from get_handler outside the memo that register() resets "
-          "(handlerStoredOutsideMemo = [], memoTouchedOutsideRegistry = []) and accepts either reset form."),
-    note=("partial: the 'inputs untouched' half is observed by snapshots and holds by construction in the immutable-value "
-          "interpreter model; no heap-level frame theorem. trusted: Lean kernel + {propext, Classical.choice, Quot.sound}; "
-          "extractor; harness/driver; a call interacts with shared library state only through the two caches (that "
-          "everything else is per call is C20/C07's subject)."),
-    technique='Lean 4 invariant proof over operation histories (adaptive-strategy model of calls) + facts obligation by decide + differential correspondence incl. fresh-interpreter comparison',
+          "(handlerStoredOutsideMemo = [], memoTouchedOutsideRegistry = []) and accepts either reset form. The concrete "
+          "registry (TReg) has exact= registrations and virtual (ABC) bases: c06_register_candidate_wins / "
+          "c06_register_abc_wins / c06_register_exact_self / c06_register_exact_not_inherited and their "
+          "lookup-register-lookup histories. 'Inputs untouched' is a heap-level frame theorem on a heap with object "
+          "identity for T expressions (item steps and all twelve arithmetic operators over scalars, lists, tuples, "
+          "bytearrays, sets, frozensets, dicts, nested to any depth), arg_val, dict / list / tuple specs and Coalesce: "
+          "an evaluation only appends cells (c06_tarith_frame, c06_spec_frame), its container results are new objects "
+          "(c06_tarith_fresh, c06_spec_fresh), any sequence of calls leaves every old cell and every observable tree "
+          "as it was (c06_calls_frame, c06_view_preserved), and the outcome of a call (the tree its value denotes, or "
+          "its error) is the same whatever calls were made before it (c06_repeat_same: evaluation commutes with "
+          "relocation of the objects it creates); c06_arith_checker ties the decidable checker the driver "
+          "evaluates on the implementation's before/after heap graph to these theorems; the facts obligation "
+          "c06_facts_arith_binary requires every arithmetic branch of _t_eval to be the binary operator statement "
+          "(cur = cur + arg, or the operator-module function of a dispatch table), not an in-place one."),
+    note=("partial: 'inputs untouched' is a theorem for the constructs of the heap model (T item/arithmetic, arg_val, "
+          "dict/list/tuple specs, Coalesce, Vars) and observed by deep snapshots (structure + identity) for the others; "
+          "the cache model (c06_history) and the heap model (c06_repeat_same) are two models, not composed into one. "
+          "trusted: Lean kernel + {propext, Classical.choice, Quot.sound}; extractor; harness/driver; CPython's binary "
+          "operators as modelled by aBin (compared on every case); a call interacts with shared library state only "
+          "through the two caches (that everything else is per call is C20/C07's subject)."),
+    technique='Lean 4 invariant proof over operation histories (adaptive-strategy model of calls) + heap-level frame theorem by mutual structural induction over the spec syntax + facts obligations by decide + differential correspondence incl. heap-graph before/after and fresh-interpreter comparison',
     ref='DESIGN.md §3 C06')
 
 TEXTS = ['a', 'a.b', 'a.*', '*', '**', '**.b', 'a.*.b', 'x.0.y', '', 'a..b', '0', 'k0.k1.k2', '*.*', 'a.**.c']
@@ -898,7 +938,9 @@ def star_ops(classes, ty):
 
 def generate(rng, tier, scale, **focus):
     n = (28 if tier == 'quick' else 300) * scale
-    combos = arith_combos() if tier != 'quick' else []
+    # focus (search after a broken tie / a changed source function): 'arith' = the enumeration of operator x
+    # operand kinds also in the quick tier; 'reg' = more lookup / registration / lookup triples
+    combos = arith_combos() if (tier != 'quick' or focus.get('arith')) else []
     rng.shuffle(combos)
     for i in range(n):
         pl = pool(rng)
@@ -967,7 +1009,7 @@ def generate(rng, tier, scale, **focus):
                 ops.insert(rng.randrange(len(ops) + 1), {'op': 'glom', 'idx': x})
         # type-directed: a lookup, a registration of a related type (itself, a base, a subclass, the ABC it is a
         # virtual subclass of; exact or not) in the same registry, the same lookup — for every op
-        for _ in range(rng.randint(1, 4)):
+        for _ in range(rng.randint(1, 4) + (4 if focus.get('reg') else 0)):
             e = rng.randrange(len(objs))
             # (a wildcard entry: one of the lookups `_extend_children` makes for one of the visited types)
             ty, opname = rng.choice(objs[e].get('lookups') or
@@ -986,6 +1028,21 @@ def generate(rng, tier, scale, **focus):
                 ops.insert(pos[off] + off, item)
         yield {'pool': entries, 'classes': classes, 'n_regs': n_regs, 'ops': ops,
                'fresh_budget': 4 if tier == 'quick' else 7}
+
+
+def focus(disagreements, facts_changed):
+    """the search after a broken tie: both new classes, denser"""
+    return {'arith': True, 'reg': True}
+
+
+def focus_changed(changed_funcs):
+    names = ' '.join(changed_funcs)
+    out = {}
+    if '_t_eval' in names or 'arg_val' in names or '_ArgValuator' in names or '<module>' in names:
+        out['arith'] = True
+    if 'TargetRegistry' in names or 'register' in names or 'get_handler' in names or '<module>' in names:
+        out['reg'] = True
+    return out
 
 
 def corpus():
